@@ -179,7 +179,11 @@ impl Obj {
 }
 
 fn port_pick(rng: &mut Rng, used: &[u16]) -> u16 {
-    match rng.below(10) {
+    match rng.below(13) {
+        // neighbours of a port in use (n-1, n^1, n^2) and the last ports of the I/O space
+        10 if !used.is_empty() => rng.pick(used).wrapping_sub(1),
+        11 if !used.is_empty() => *rng.pick(used) ^ (1 << rng.below(3)),
+        12 => 0xfff8 + rng.below(8) as u16,
         0 => 0,
         1 => 0xff,
         2 => 0x100,
@@ -240,15 +244,12 @@ pub fn gen(seed: u64) -> Replay {
                 steps.push(json!({"op": "clone", "id": x.0, "new_id": next_id}));
                 next_id += 1;
             }
-            4 => {
-                let a = rng.pick(&ids).0;
-                let b = rng.pick(&ids).0;
-                steps.push(json!({"op": "eq", "a": a, "b": b}));
-            }
-            5 => {
-                let a = rng.pick(&ids).0;
-                let b = rng.pick(&ids).0;
-                steps.push(json!({"op": "ne", "a": a, "b": b}));
+            4 | 5 => {
+                // mostly two objects of the same type (only those can be compared)
+                let x = rng.pick(&ids).clone();
+                let same: Vec<u64> = ids.iter().filter(|y| y.1 == x.1 && y.2 == x.2).map(|y| y.0).collect();
+                let b = if rng.chance(70) { *rng.pick(&same) } else { rng.pick(&ids).0 };
+                steps.push(json!({"op": if op == 4 { "eq" } else { "ne" }, "a": x.0, "b": b}));
             }
             8 => {
                 // dst.clone_from(&src) between two objects of the same type
